@@ -25,6 +25,7 @@ func checkC07(c *Check, a *Anchors) {
 	c07ReentrantWait(c, a)
 	c07SoleLimiter(c, a)
 	recursionReviewed(c, a, "recursion-reviewed")
+	lockReleasedOnEveryExit(c, a, "lock-released-on-every-exit")
 	c06OnceKey(c, a) // two different tasks that share a run-once key wait for each other's execution: a dependency between them deadlocks
 }
 
